@@ -565,8 +565,52 @@ class ProgGen:
             rhs = self.pick(scal).name if scal and self.chance(50) else self.lit()
         return ["wcfg", f[0], f[1], rhs]
 
-    def call(self, sc):
+    def forced_call(self, sc):
+        """allocate fresh, fully initialised buffers that fit a callee's parameters, then call it"""
         c = self.pick(self.callees)
+        smax = {a["name"]: a["max"] for a in c["args"] if a["kind"] == "size" and "max" in a}
+        out = []
+        made = []
+        for a in c["args"]:
+            if a["kind"] not in ("tensor", "window") or self.chance(35):
+                continue
+            dims = []
+            for w in a["dims"]:
+                if w.isdigit():
+                    dims.append((None, int(w) + (0 if a["kind"] == "tensor" else self.pick([0, 0, 1, 3]))))
+                else:
+                    dims.append((None, min(4, smax.get(w, 4)) + (0 if a["kind"] == "tensor" else self.pick([0, 0, 2]))))
+            name = f"cb{next(self.counter)}"
+            b = Buf(name, dims, a["prec"], True, "alloc", init=True)
+            out.append(["alloc", name, a["prec"], [dim_str(d) for d in dims], "DRAM"])
+            its = [f"i{r}" for r in range(len(dims))]
+            inner = Scope(sc)
+            for itn, d in zip(its, dims):
+                inner.vars[itn] = Var(itn, 0, d[1] - 1, d[0])
+            body = [["assign", name, its, self.data_expr(inner, a["prec"], 1)]]
+            for itn, d in reversed(list(zip(its, dims))):
+                body = [["for", itn, "0", dim_str(d), body, "seq"]]
+            out.extend(body)
+            sc.bufs[name] = b
+            sc.locals.add(name)
+            made.append(name)
+        for a in c["args"]:
+            if a["kind"] == "scalar":
+                name = f"cs{next(self.counter)}"
+                out.append(["alloc", name, a["prec"], [], "DRAM"])
+                out.append(["assign", name, [], self.data_expr(sc, a["prec"], 1)])
+                sc.bufs[name] = Buf(name, [], a["prec"], True, "alloc", init=True)
+                sc.locals.add(name)
+                made.append(name)
+        call = self.call(sc, c)
+        if call is None:
+            for nme in made:
+                sc.bufs.pop(nme, None)
+            return None
+        return out + [call]
+
+    def call(self, sc, c=None):
+        c = c or self.pick(self.callees)
         args = []
         used = set()
         binds = {}
@@ -639,7 +683,7 @@ class ProgGen:
                 else:
                     plan[a["name"]] = f"{b.name}[{', '.join(acc)}]"
             elif a["kind"] == "scalar":
-                cands = [b for b in sc.bufs.values() if b.prec == a["prec"] and b.name not in used and (b.writable or not a.get("written", False)) and b.init]
+                cands = [b for b in sc.bufs.values() if not b.dims and b.prec == a["prec"] and b.name not in used and (b.writable or not a.get("written", False)) and b.init]
                 if not cands:
                     return None
                 b = self.pick(cands)
@@ -753,6 +797,12 @@ class ProgGen:
             if kind == "window" and self.chance(15):
                 preds.append(f"stride({nm}, {rank - 1}) == 1")
         body = self.stmts(sc, self.int(2, 5))
+        if self.o.get("force_call") and self.callees and not any(s[0] == "call" for s in body):
+            for _ in range(4):
+                c = self.forced_call(sc)
+                if c:
+                    body.extend(c)
+                    break
         return {"name": "foo", "args": args, "preds": preds, "body": body}
 
     def program(self):
@@ -760,7 +810,7 @@ class ProgGen:
         precs = o.get("precs", PRECS)
         self.prec = self.pick(precs)
         self.use_cfg = o.get("configs", True) and self.chance(o.get("config_pct", 25))
-        ncal = self.int(0, 2) if o.get("calls", True) else 0
+        ncal = self.int(1 if o.get("force_call") else 0, 2) if o.get("calls", True) else 0
         callees = []
         for i in range(ncal):
             callees.append(self.callee(i))
